@@ -7,19 +7,6 @@ package sftp
 
 
 
-// request ids are the client's choice: arbitrary, pairwise distinct (added
-// after seeded change C14-d, which keyed on one particular id)
-func vIDs(n int) []uint32 {
-	ids := make([]uint32, n)
-	for i := range ids {
-		ids[i] = vNondetU32()
-		for j := 0; j < i; j++ {
-			vAssume(ids[i] != ids[j])
-		}
-	}
-	return ids
-}
-
 func vh_C14_write_write_read_close() {
 	vErrKinds = 0
 	ids := vIDs(3)
